@@ -192,6 +192,67 @@ def verify(m, cls, what, kwargs=None):
     return p
 
 
+NUMS = [1, 7, 2000, 12, 31, 12345, 2024]
+CONTEXTS = ['alone', 'meta', 'custom', 'balance', 'cost', 'posting']
+
+
+def make_children_expr(kind, twin=False):
+    """Number expressions assembled with NumberMulExpr/NumberAddExpr/NumberExpr.from_children (1..3 operands, symbolic
+    operand values and operators), placed alone / as a meta value / custom value / balance number / cost number /
+    posting number: the printed context must parse back to the same dump and the same value."""
+    ops_all = ['+', '-'] if kind == 'add' else ['*', '/']
+    nn = len(NUMS)
+
+    def cell(n: int, a: int, b: int, c: int, o0: int, o1: int, ctx: int) -> None:
+        assert 1 <= n <= 3 and 0 <= a < nn and 0 <= b < nn and 0 <= c < nn and 0 <= o0 <= 1 and 0 <= o1 <= 1 and 0 <= ctx < len(CONTEXTS)
+        n = pick(n, 1, 3)
+        nums = [NUMS[pick(x, 0, nn - 1)] for x in (a, b, c)[:n]]
+        ops = [ops_all[pick(o, 0, 1)] for o in (o0, o1)[:n - 1]]
+        ctx = CONTEXTS[pick(ctx, 0, len(CONTEXTS) - 1)]
+        with NoTracing():
+            def mul(ns, os_):
+                return M.NumberMulExpr.from_children(tuple(M.Number.from_value(D(x)) for x in ns), tuple(M.MulOp.from_raw_text(o) for o in os_))
+            if kind == 'mul':
+                add = M.NumberAddExpr.from_children((mul(nums, ops),), ())
+            else:
+                add = M.NumberAddExpr.from_children(tuple(mul([x], []) for x in nums), tuple(M.AddOp.from_raw_text(o) for o in ops))
+            expr = M.NumberExpr.from_children(add)
+            expected = expr.value
+            what = 'from_children %s %s %s as %s' % (kind, nums, ops, ctx)
+            if twin:
+                raise Fail('twin reached the assertion point')
+            if ctx == 'alone':
+                p = verify(expr, M.NumberExpr, what)
+                got = p.value
+            elif ctx == 'meta':
+                m = M.Close.from_value(DT(2020, 2, 3), 'Assets:Foo', meta={'key': expr})
+                p = verify(m, M.Close, what)
+                got = p.meta['key']
+            elif ctx == 'custom':
+                m = M.Custom.from_value(DT(2020, 2, 3), 'budget', ['x', expr])
+                p = verify(m, M.Custom, what)
+                vs = list(p.values)
+                got = vs[1] if len(vs) == 2 else vs
+            elif ctx == 'balance':
+                m = M.Balance.from_children(M.Date.from_value(DT(2020, 2, 3)), M.Account.from_value('Assets:Foo'), expr, None, M.Currency.from_value('USD'))
+                p = verify(m, M.Balance, what)
+                got = p.number
+            elif ctx == 'cost':
+                m = M.CostSpec.from_value(D('1'), None, 'USD')
+                m.raw_cost.raw_components[0].raw_number = expr
+                m = M.Posting.from_value('Assets:A', D('1'), 'EUR', cost=m)
+                p = verify(m, M.Posting, what)
+                got = p.cost.number_per
+            else:
+                m = M.Posting.from_value('Assets:A', D('1'), 'EUR')
+                m.raw_number = expr
+                p = verify(m, M.Posting, what)
+                got = p.number
+            check(isinstance(got, D) and got == expected, what, 'parses back to', R(got), 'instead of', R(expected))
+
+    return 'children_%s%s' % (kind, '_twin' if twin else ''), cell
+
+
 def make_custom(n, twin=False):
     nk = len(CUSTOM_VALUES)
 
@@ -279,6 +340,9 @@ for _p in range(4):
              {'C15': Q if quick else T}, 1800, 'construct', 'Transaction.from_value with postings #%d, meta #%d: every combination of the other arguments' % (_p, _m), cost=400)
 for _n in (0, 1, 2, 3):
     _reg(make_custom(_n), {'C15': Q if _n <= 2 else T}, 1800, 'custom', 'Custom.from_value with %d values of symbolic kinds (9 kinds incl. negative numbers and amounts) x 4 meta x inline comment' % _n, cost=9 ** _n)
+for _k in ('add', 'mul'):
+    _reg(make_children_expr(_k), {'C15': Q}, 1200, 'children', 'NumberExpr assembled with from_children (%s chain of 1..3 operands from %r, symbolic operators) x 6 contexts' % (_k, NUMS), cost=300)
+_reg(make_children_expr('add', twin=True), {'C15': Q}, 120, 'children', 'vacuity twin', twin=True, cost=1)
 _reg(make_file(), {'C15': Q}, 1200, 'file', 'File assembled from 3 constructed directives (8 kinds each)', cost=200)
 _reg(make_construct('Open', twin=True), {'C15': Q}, 120, 'construct', 'vacuity twin', twin=True, cost=1)
 _reg(make_custom(2, twin=True), {'C15': Q}, 120, 'custom', 'vacuity twin', twin=True, cost=1)
